@@ -152,6 +152,36 @@ def run(rep):
             tok, _ = imggen.gen(rng, ct, depth, w, h, rng.random() < 0.3, rng.choice(imggen.CLASSES), rng.choice(imggen.KEY_MODES))
         png = e2e.png_from_token(rng, tok)
         o = e2e.rand_opts(rng, "any")
+        if k % 5 == 3:
+            # size ties between candidates of different kinds (8-bit luma-sorted vs 4-bit, ...): tiny paletted images, cheap presets
+            ncol = rng.choice([3, 5, 9, 16, 17])
+            w, h = rng.choice([(5, 15), (4, 9), (7, 5), (3, 10), (6, 6)])
+            pal = [tuple(rng.randrange(256) for _ in range(3)) + (255,) for _ in range(ncol + rng.choice([0, 1, 2]))]
+            idx = [[(rng.randrange(ncol),) for x in range(w)] for y in range(h)]
+            tok = pg.img_token(w, h, 3, 8, False, pal, pg.pack_image(idx, w, h, 3, 8, False))
+            png = e2e.png_from_token(rng, tok, simple=True)
+            o = f"preset={rng.choice([0, 1, 2, 2, 3])}"
+        elif k % 5 == 4:
+            # animations in which one later frame cannot be decoded while the others can be recompressed: the outcome (an error)
+            # must not depend on which frame a worker happened to reach first
+            import chunkgen
+            import zlib
+            for _ in range(6):
+                a = chunkgen.gen_apng(rng, extra_frames=rng.choice([3, 4]), split=1)[0]
+                ch = e2e.chunk_list(a)
+                fd = [i for i, c in enumerate(ch) if c[4:8] == b"fdAT"]
+                if len(fd) >= 2:
+                    i = fd[rng.randrange(1, len(fd))]
+                    body = ch[i][8:-4]
+                    try:
+                        raw = zlib.decompress(body[4:])
+                    except zlib.error:
+                        continue
+                    bad = body[:4] + zlib.compress(raw[: max(1, len(raw) // 2)], 1)      # a valid stream with too few rows
+                    ch[i] = pg.chunk("fdAT", bad)
+                    png = a[:8] + b"".join(ch)
+                    o = f"preset={rng.choice([1, 2, 3])}"
+                    break
         base.add(f"opt {o} {png.hex()}", o=o, png=png)
     variants = {"default-pool": (impl, lambda m: f"opt {m['o']} {m['png'].hex()}")}
     for t in (1, 2, 3, 5, 16):
